@@ -130,6 +130,55 @@ def h_entry_point(g):
             detail={"prior": sorted(prior), "after_entry": sorted(state)})
 
 
+class RecordingPrinter:
+    """stands in for GFFPrinter: remembers the exon-id storage it is given and its state at that moment, then issues ids
+    (as printing models would)"""
+    seen = []
+
+    def __init__(self, out_dir, prefix, exon_id_storage, *a, **k):
+        RecordingPrinter.seen.append((exon_id_storage, len(exon_id_storage.id_dict), exon_id_storage.id_distributor.value))
+        for i in range(3):
+            exon_id_storage.get_id("chr1", (10 * i + 1, 10 * i + 5), "+")
+
+    def __getattr__(self, name):
+        return lambda *a, **k: None
+
+
+def h_id_storage_fresh(g):
+    """two consecutive chromosome runs in one process (two experiments, or two chromosomes of one worker): the exon-id
+    table and its counter start fresh in the second one although the first one issued ids"""
+    same_chr = bool(g.bool("second_run_same_chromosome_other_experiment"))
+    d = os.path.join(scratch(), "ids")
+    shutil.rmtree(d, ignore_errors=True)
+    os.makedirs(d)
+    saved = (dp.Fasta, dp.ReadAssignmentAggregator, dp.ReadAssignmentLoader, dp.GFFPrinter)
+    dp.Fasta = lambda *a, **k: {"chr1": "ACGT" * 50, "chr2": "ACGT" * 50}
+    dp.ReadAssignmentAggregator = lambda *a, **k: NoOp(read_stat_counter=dp.EnumStats(), global_counter=NoOp(), transcript_model_global_counter=NoOp(),
+                                                       global_printer=NoOp())
+    dp.ReadAssignmentLoader = FakeLoader
+    dp.GFFPrinter = RecordingPrinter
+    RecordingPrinter.seen = []
+    old = gbmc.GraphBasedModelConstructor.detected_known_isoforms
+    try:
+        args = Obj(no_model_construction=False, reference="ref.fa", fai_file_name=None, resume=False, genedb=None, check_canonical=False,
+                   sqanti_output=False)
+        for i, chr_id in enumerate(["chr1", "chr1" if same_chr else "chr2"]):
+            dump = os.path.join(d, "exp%d.save" % i)
+            with open(dump + "_multimappers_" + chr_id, "wb") as fh:
+                ser.write_int(ser.TERMINATION_INT, fh)
+            sample = Obj(out_dir=d, prefix="exp%d" % i, out_t2t_tsv=os.path.join(d, "t2t%d.tsv" % i))
+            call(g, dp.construct_models_in_parallel, sample, chr_id, dump, args, ["NA"])
+    finally:
+        dp.Fasta, dp.ReadAssignmentAggregator, dp.ReadAssignmentLoader, dp.GFFPrinter = saved
+        gbmc.GraphBasedModelConstructor.detected_known_isoforms = old
+    seen = RecordingPrinter.seen
+    g.check(len(seen) == 2, "each chromosome run builds its transcript printer")
+    if len(seen) == 2:
+        g.check(seen[1][1] == 0 and seen[1][2] == 0,
+                "the exon-id table and counter of a chromosome run start fresh, whatever the same process handled before",
+                detail={"ids_already_known": seen[1][1], "counter": seen[1][2], "same_chromosome": same_chr})
+
+
 def h_known_isoform_reported(g):
     """from the clean state the reference isoform reproduced by a full-length path is reported (count permitting),
     and processing the same locus twice inside one chromosome run reports it once"""
@@ -261,6 +310,8 @@ def instances(tier, seed):
     out = [Instance("class_state_scan", h_scan, [], "AST scan of src/*.py for class-level mutable state", weight=1),
            Instance("entry_point_resets_state", h_entry_point, ["src.dataset_processor:construct_models_in_parallel"],
                     "arbitrary prior contents of the 'already reported' set", weight=50),
+           Instance("exon_id_storage_fresh", h_id_storage_fresh, ["src.dataset_processor:construct_models_in_parallel", "src.id_policy:FeatureIdStorage.__init__"],
+                    "two consecutive chromosome runs (same chromosome of another experiment / another chromosome)", weight=30),
            Instance("known_isoform_reported", h_known_isoform_reported, [G + "construct_fl_isoforms"], "symbolic read count, same locus twice", weight=20),
            Instance("id_counters", h_id_counters, ["src.isoform_assignment:ReadAssignment.__init__", "src.gene_info:FeatureInfo.__init__",
                                                    "src.id_policy:SimpleIDDistributor.increment"], "symbolic prior counter values", weight=5)]
